@@ -550,6 +550,38 @@ func c10SkipBody(e *Env) {
 		return
 	}
 	n := 0
+	// decision helpers: `func (…) f(…, P bool) { if P { closeConn } else { releaseConn } }`
+	deciders := map[*types.Func]int{}
+	for _, fi := range declaredNonTest(w) {
+		if fi.Decl.Body == nil || w.RelPkg(fi.Obj.Pkg()) != "pkg/protocol/http1" || len(fi.Decl.Body.List) != 1 {
+			continue
+		}
+		is, ok := fi.Decl.Body.List[0].(*ast.IfStmt)
+		if !ok || is.Else == nil {
+			continue
+		}
+		info := fi.Pkg.TypesInfo
+		names := map[string]bool{}
+		ast.Inspect(is, func(m ast.Node) bool {
+			if c, ok := m.(*ast.CallExpr); ok {
+				if f := calleeOf(info, c); f != nil {
+					names[f.Name()] = true
+				}
+			}
+			return true
+		})
+		x := unparen(is.Cond)
+		if u, ok := x.(*ast.UnaryExpr); ok && u.Op == token.NOT {
+			x = unparen(u.X)
+		}
+		pv := usedVar(info, x)
+		sig := fi.Obj.Type().(*types.Signature)
+		for i := 0; pv != nil && names["closeConn"] && names["releaseConn"] && i < sig.Params().Len(); i++ {
+			if sig.Params().At(i) == pv {
+				deciders[fi.Obj] = i
+			}
+		}
+	}
 	for _, fi := range declaredNonTest(w) {
 		if fi.Decl.Body == nil || w.RelPkg(fi.Obj.Pkg()) != "pkg/protocol/http1" {
 			continue
@@ -574,6 +606,17 @@ func c10SkipBody(e *Env) {
 		var dec *types.Var
 		var decPos token.Pos
 		ast.Inspect(fi.Decl.Body, func(nd ast.Node) bool {
+			if c, ok := nd.(*ast.CallExpr); ok {
+				if f := calleeOf(info, c); f != nil {
+					if pi, isDec := deciders[f]; isDec && pi < len(c.Args) {
+						if v := usedVar(info, c.Args[pi]); v != nil && !v.IsField() {
+							if _, inLit := enclosing(parents(fi.Decl), c, func(m ast.Node) bool { _, ok := m.(*ast.FuncLit); return ok }).(*ast.FuncLit); !inLit {
+								dec, decPos = v, c.Pos()
+							}
+						}
+					}
+				}
+			}
 			is, ok := nd.(*ast.IfStmt)
 			if !ok || is.Else == nil {
 				return true
